@@ -9,6 +9,14 @@ LEVEL_NOTE = ("Trusted base: clang 14 front end and CFG builder, the gsa-extract
               "Assumes the shipped configuration (GALOIS_USE_LONGJMP_ABORT, NDEBUG).")
 
 CHECKS = {
+    "C15": ("narrow: exhaustive evaluation of structural necessary conditions on every instantiation found: merge functor paired "
+            "with the matching identity and functors compute what they are named; -= negates; Reducible ctor/reset/reduce cover "
+            "all slots with the right start index and re-arm after merging; atomic min/max/add/subtract are CAS loops with the "
+            "right guard direction and new value; bitset set/reset are CAS loops on the right word and mask; union-find links by "
+            "CAS in a fixed address direction; parallel bitset bodies owner-indexed; thread-safe queues touch their container "
+            "under the lock; distributed reducers agree on the MPI datatype table and use SUM/MAX/MIN. Values (lost updates, "
+            "bit-range masks, floating-point merge order) are not decided.",
+            "finite fact tables (TABLE), CAS-loop shape, loop-coverage (ORD), RACE and LOCK rules over clang AST facts", "4 C15"),
     "C14": ("narrow: exhaustive evaluation of structural necessary conditions on every CFG path of the container "
             "instantiations of the driver matrix and on the uninstantiated template patterns: next/prev mirror assignments, "
             "first/last maintenance, construction/destruction paired one-to-one with the size counter, concurrent and "
